@@ -3,6 +3,7 @@ from .model import short, const_val, Tracer
 from .roles import Roles, role_effects, INNER, HTXFILE, HTXCACHE
 from .util import (calls_to, origins, where, is_call_to, lookup_split, region_dominated, find_bool_split, chase,
                    in_cycle, const_origin)
+from .fields import pf, fq
 from . import c04bitmap
 
 EXPLANATION = (
@@ -121,7 +122,7 @@ def _check_own(ctx):
                   "the key stored by put is not the key parameter", where=where(ins_fn, b))
         vo = origins(prog, ins_fn, t["args"][2], at=b)
         n_origin += 1
-        ctx.check(role_origin(prog, R, ins_fn, vo, "VAL_ALLOC", ".offset"), "insert-links", "key->own-value",
+        ctx.check(role_origin(prog, R, ins_fn, vo, "VAL_ALLOC", pf(prog, "ValuePiece", "offset")), "insert-links", "key->own-value",
                   "the value offset stored in a new key record is not the offset of the value record allocated by the same put (%s)" % vo,
                   where=where(ins_fn, b), expected="VAL_ALLOC(..)?.offset")
         nx = origins(prog, ins_fn, t["args"][3], at=b)
@@ -136,7 +137,7 @@ def _check_own(ctx):
         b, t = hw[0]
         o = origins(prog, ins_fn, t["args"][2], at=b)
         n_origin += 1
-        ctx.check(role_origin(prog, R, ins_fn, o, "KEY_ALLOC", ".offset"), "insert-links", "head-is-new-record",
+        ctx.check(role_origin(prog, R, ins_fn, o, "KEY_ALLOC", pf(prog, "KeyPiece", "offset")), "insert-links", "head-is-new-record",
                   "the bucket head written by an insert is not the offset of the key record just allocated (%s)" % o, where=where(ins_fn, b))
         if ka:
             ctx.check(ins_fn.dominates(ka[0][0], b), "insert-links", "alloc-before-head", "the bucket head is written before the key record exists", where=where(ins_fn, b))
@@ -169,7 +170,7 @@ def _check_own(ctx):
         for b, t in rd:
             o = origins(prog, ovw, t["args"][1], at=b)
             n_origin += 1
-            ctx.check(role_origin(prog, R, ovw, o, "KEY_READ", ".value_offset"), "overwrite-links", "value-of-own-key",
+            ctx.check(role_origin(prog, R, ovw, o, "KEY_READ", pf(prog, "KeyPiece", "value_offset")), "overwrite-links", "value-of-own-key",
                       "the value record rewritten is not the one the key record points to (%s)" % o, where=where(ovw, b))
         # moved value record => key record updated and rewritten
         moved = find_bool_split(prog, ovw, lambda o: o.kind == "call" and (o.data.get("callee") or "") in ("core::cmp::PartialEq::eq", "core::cmp::PartialEq::ne")
@@ -182,10 +183,10 @@ def _check_own(ctx):
             stores = []
             for b, blk in enumerate(ovw.blocks):
                 for s in blk["stmts"]:
-                    if s["s"] == "assign" and s["lhs"]["p"] and s["lhs"]["p"][-1].endswith("KeyPiece.value_offset"):
+                    if s["s"] == "assign" and s["lhs"]["p"] and s["lhs"]["p"][-1].endswith(pf(prog, "KeyPiece", "value_offset")):
                         stores.append((b, s))
             n_origin += 1
-            good = len(stores) == 1 and stores[0][0] in reg and role_origin(prog, R, ovw, origins(prog, ovw, stores[0][1]["rhs"].get("a", {}), at=stores[0][0]), "VAL_REWRITE", ".offset")
+            good = len(stores) == 1 and stores[0][0] in reg and role_origin(prog, R, ovw, origins(prog, ovw, stores[0][1]["rhs"].get("a", {}), at=stores[0][0]), "VAL_REWRITE", pf(prog, "ValuePiece", "offset"))
             ctx.check(good, "overwrite-links", "moved-value-relinked",
                       "when an overwrite moves the value record, the key record is not updated with the new value offset", where=where(ovw, moved_entry))
             kws = [b for b, t in kw if b in reg]
@@ -211,7 +212,7 @@ def _check_own(ctx):
     kf = calls_to(prog, dele, target_fn=R.need("KEY_FREE"))
     for b, t in vf:
         n_origin += 1
-        ctx.check(from_found(origins(prog, dele, t["args"][1], at=b), ".value_offset"), "delete-links", "frees-own-value",
+        ctx.check(from_found(origins(prog, dele, t["args"][1], at=b), pf(prog, "KeyPiece", "value_offset")), "delete-links", "frees-own-value",
                   "the value record freed by delete is not the one the found key record points to", where=where(dele, b))
     for b, t in kf:
         o = origins(prog, dele, t["args"][1], at=b)
@@ -229,7 +230,7 @@ def _check_own(ctx):
         head_e, inner_e = ps[0]["true"], ps[0]["false"]
         r_head, r_inner = region_dominated(dele, head_e), region_dominated(dele, inner_e)
         hws = [(b, t) for b, t in calls_to(prog, dele, target_fn=R.need("HEAD_WRITE")) if b in r_head]
-        ok = len(hws) == 1 and from_found(origins(prog, dele, hws[0][1]["args"][2], at=hws[0][0]), ".bucket_next_offset")
+        ok = len(hws) == 1 and from_found(origins(prog, dele, hws[0][1]["args"][2], at=hws[0][0]), pf(prog, "KeyPiece", "next"))
         n_origin += 1
         ctx.check(ok and not dele.success_reach_return(head_e, [b for b, _ in hws]), "delete-links", "head-unlink",
                   "deleting the first record of a chain does not make the bucket head point at the deleted record's successor", where=where(dele, head_e))
@@ -239,10 +240,10 @@ def _check_own(ctx):
         for b, blk in enumerate(dele.blocks):
             if b in r_inner:
                 for s in blk["stmts"]:
-                    if s["s"] == "assign" and s["lhs"]["p"] and s["lhs"]["p"][-1].endswith("KeyPiece.bucket_next_offset"):
+                    if s["s"] == "assign" and s["lhs"]["p"] and s["lhs"]["p"][-1].endswith(pf(prog, "KeyPiece", "next")):
                         stores.append((b, s))
         n_origin += 1
-        ok = len(prd) == 1 and len(stores) == 1 and from_found(origins(prog, dele, stores[0][1]["rhs"].get("a", {}), at=stores[0][0]), ".bucket_next_offset")
+        ok = len(prd) == 1 and len(stores) == 1 and from_found(origins(prog, dele, stores[0][1]["rhs"].get("a", {}), at=stores[0][0]), pf(prog, "KeyPiece", "next"))
         ctx.check(ok, "delete-links", "inner-unlink",
                   "deleting a non-first record does not store the deleted record's successor into its predecessor", where=where(dele, inner_e))
         kws = [b for b, t in calls_to(prog, dele, target_fn=R.need("KEY_REWRITE")) if b in r_inner]
@@ -274,7 +275,7 @@ def _check_own(ctx):
                 b_ = origins(prog, fn, o.data["b"], at=o.block)
                 a_ok = bool(a) and all(x.kind == "call" and (x.data.get("callee") or "").endswith("HashValue::as_value")
                                        and all(y.kind == "param" and y.data == 2 for y in origins(prog, fn, x.data["args"][0], at=x.block)) for x in a)
-                b_ok = bool(b_) and all(x.proj and x.proj[-1].endswith("VarFileHtxCache.buckets_size") for x in b_)
+                b_ok = bool(b_) and all(x.proj and x.proj[-1].endswith(fq(prog, "HTXCACHE.buckets_size")) for x in b_)
                 good = good and a_ok and b_ok
         n_origin += 1
         ctx.check(good, "bucket-index", role, "%s does not address bucket (hash %% cached bucket count)" % role, where=where(fn))
@@ -282,7 +283,7 @@ def _check_own(ctx):
             o = origins(prog, fn, lf[0][1]["args"][3], at=lf[0][0])
             ctx.check(bool(o) and all(x.kind == "param" and x.data == 3 for x in o), "bucket-index", "HEAD_WRITE:value", "the head writer does not store the offset it was given", where=where(fn))
             bs = origins(prog, fn, lf[0][1]["args"][1], at=lf[0][0])
-            ctx.check(bool(bs) and all(x.proj and x.proj[-1].endswith("VarFileHtxCache.buckets_size") for x in bs), "bucket-index", "HEAD_WRITE:table-size",
+            ctx.check(bool(bs) and all(x.proj and x.proj[-1].endswith(fq(prog, "HTXCACHE.buckets_size")) for x in bs), "bucket-index", "HEAD_WRITE:table-size",
                       "the head writer passes something other than the cached bucket count as table size", where=where(fn))
     # ---- (4b) every record field is accessed at its layout position (cursor typestate) ----------
     from . import cursor
@@ -314,8 +315,8 @@ def check(ctx):
     _check_own(ctx)
     from .engine import import_rules
     # a record that overruns its slot, a misplaced free-slot remainder or a lost re-link make the files undecodable too
-    import_rules(ctx, "c06", {"free-slot-field-position", "no-lost-link-update", "large-pop-conservation"})
-    import_rules(ctx, "c09", {"sizer-covers-writer", "slot-honoured"})
+    import_rules(ctx, "c06", {"free-slot-field-position", "no-lost-link-update", "large-pop-conservation", "writer-arms", "delete-pushes-slot", "class-slot"})
+    import_rules(ctx, "c09", {"sizer-covers-writer", "slot-honoured", "vu64-reader-consumes-encoded-length"})
     import_rules(ctx, "c08", {"relink"})
     import_rules(ctx, "c01", {"op-wiring"})
     import_rules(ctx, "c07", {"stored-count-wins"})
